@@ -184,9 +184,12 @@ def plan(prop, tier):
                 + [dict(gogen('bytes', 300 if q else 5000, fam='params', trace='Trace_Params'), replay_prefix=True, min_per_shard=20)],
                 'rule': RULE_PARAMS, 'assumptions': ASSUME_COMMON}
     if prop == 'C14':
-        return {'stages': match_stages('hosts', 2 if q else 3, 1, 1.0 if q else 0.5), 'rule': RULE_MATCH, 'assumptions': ASSUME_COMMON}
+        # quick: every depth-2 history + a seeded 30 % of the depth-3 histories + random Host bytes; thorough: every depth-3 history
+        return {'stages': match_stages('hosts', 2, 1, 1.0) + match_stages('hosts', 3, 1, 0.3 if q else 1.0)[1:]
+                + [gogen('bytes', 150 if q else 3000, fam='match', trace='Trace_Match', seedoff=3)], 'rule': RULE_MATCH, 'assumptions': ASSUME_COMMON}
     if prop == 'C15':
-        return {'stages': match_stages('pathver', 0, 6 if q else 7) + match_stages('headerver', 0, 1), 'rule': RULE_MATCH, 'assumptions': ASSUME_COMMON}
+        return {'stages': match_stages('pathver', 0, 6 if q else 7) + match_stages('headerver', 0, 1)
+                + [gogen('bytes', 150 if q else 3000, fam='match', trace='Trace_Match', seedoff=3)], 'rule': RULE_MATCH, 'assumptions': ASSUME_COMMON}
     if prop == 'C13':
         return {'stages': group_stages(2 if q else 3, 'C13', 0.5 if q else 0.08) + [gogen('bytes', 60 if q else 1500, fam='group', trace='Trace_Group')],
                 'rule': RULE_GROUP, 'assumptions': ASSUME_COMMON}
